@@ -349,15 +349,18 @@ MkConLet == On("conlet") /\ Building /\ Cur.kind = "top" /\ Len(Stk) = 1 /\ NGen
                      cands == IF rebind THEN {c.scope[z].nm : z \in 1..Len(c.scope)} ELSE {Names[j]}
                      r == IF Bad(t.v) THEN "fail" ELSE ConFails(t.v, EvalE(ConPool[q], c.scope, << >>))
                      ok == r = "ok" /\ ~rebind
+                     planted == ~ok /\ ~Bad(t.v)          \* this statement is where the program goes wrong: a planted fault
                  IN /\ (rebind => On("badlet")) /\ (~rebind => j > c.last)
                     /\ r # "unm"
+                    /\ planted => ill > 0
+                    /\ ill' = IF planted THEN (IF ill = 1 THEN 0 - (Len(prog) + 1) ELSE ill - 1) ELSE ill
                     /\ \E nm \in cands :
                          /\ prog' = Append(prog, [s |-> "clet", nm |-> nm, x |-> t.x, con |-> ConPool[q]])
                          /\ SetCur([c EXCEPT !.stk = << >>, !.last = IF rebind THEN @ ELSE j,
                                              !.cl = IF ok THEN Worse(@, t.cl) ELSE "dirty",
                                              !.scope = IF ok THEN Append(@, Fld(nm, t.v)) ELSE @])
                     /\ phase' = IF ok THEN "gen" ELSE "closing"
-                    /\ UNCHANGED << ill, vm >>
+                    /\ UNCHANGED vm
 
 (* `constraint name = c;` with a genuine constraint of ConPool (ranges, alternatives): a fresh name, *)
 (* or - with "badlet" - one that is taken                                                           *)
@@ -372,11 +375,13 @@ MkConStmt == On("constmt") /\ Building /\ Cur.kind = "top" /\ Stk = << >> /\ NGe
                           LET v == EvalE(ConPool[q], Append(c.scope, Fld(nm, ConV(<< >>))), << >>)
                               ok == ~rebind /\ ~Bad(v)
                           IN /\ ~IsUnm(v)
+                             /\ ~ok => ill > 0
+                             /\ ill' = IF ~ok THEN (IF ill = 1 THEN 0 - (Len(prog) + 1) ELSE ill - 1) ELSE ill
                              /\ prog' = Append(prog, [s |-> "cstmt", nm |-> nm, x |-> ConPool[q]])
                              /\ SetCur([c EXCEPT !.last = IF rebind THEN @ ELSE j, !.cl = IF ok THEN @ ELSE "dirty",
                                                  !.scope = IF ok THEN Append(@, Fld(nm, v)) ELSE @])
                              /\ phase' = IF ok THEN "gen" ELSE "closing"
-                     /\ UNCHANGED << ill, vm >>
+                     /\ UNCHANGED vm
 
 MkExprStmt == On("exprstmt") /\ Building /\ Cur.kind = "top" /\ Len(Stk) = 1 /\ NGen < MaxStmts /\
               /\ prog' = Append(prog, [s |-> "expr", x |-> Cur.stk[1].x])
